@@ -69,11 +69,13 @@ def stmtWf : Stmt → Bool
 def plainText (t : Str) : Bool :=
   noTab t && Closed t && headOk t.reverse && !t.isEmpty
 
-/-- the statement text is read back as the statement (proved for every statement kind listed
-    in `C12.reads_back_*`; evaluated by the driver on every generated input) -/
+/-- the statement text is read back as the statement (a theorem, `C12.reads_back`, for every
+    `stmtWf` statement; the driver still evaluates it on the generated inputs as a cross-check) -/
 def readsBack (q : Str → Bool) (s : Stmt) : Bool := parseStmt q (renderStmt q s) == s
 
-def stmtOk (q : Str → Bool) (s : Stmt) : Bool := readsBack q s && noTab (renderStmt q s)
+/-- a statement of the language (`stmtWf`) whose rendered text contains no TAB (the character
+    `_exec` rewrites, finding C12-TAB) -/
+def stmtOk (q : Str → Bool) (s : Stmt) : Bool := stmtWf s && noTab (renderStmt q s)
 
 def isVt : Stmt → Bool
   | .vtCreate => true | .vtDrop => true | .vtInsert _ => true | .vtUpdate _ _ => true | .vtDelete _ => true
